@@ -1,4 +1,4 @@
 From Coq Require Extraction ExtrOcamlBasic.
 From Centro Require Import Base.Sx Model.Kalman Spec.Kalman.
 Extraction Language OCaml.
-Extraction "extracted/c09.ml" entry_run entry_spec_run entry_abs_run entry_run_abs entry_models entry_alg.
+Extraction "extracted/c09.ml" entry_run entry_spec_run entry_abs_run entry_run_abs entry_run_lite entry_models entry_alg.
